@@ -64,10 +64,31 @@ def ninja_shim(d: Path, jobs: int):
     return sh
 
 
+CLOCK_SHIM = """# verification shim (harness/props/C08.py): every Python process of the build sees a wall clock shifted by VERIF_CLOCK_OFFSET
+# seconds; SOURCE_DATE_EPOCH is left alone, so a build that is a function of its inputs cannot tell
+import os, time
+_off = float(os.environ.get("VERIF_CLOCK_OFFSET", "0"))
+if _off:
+    _t, _tn = time.time, time.time_ns
+    time.time = lambda: _t() + _off
+    time.time_ns = lambda: _tn() + int(_off * 1e9)
+"""
+
+
+def clock_shim(d: Path):
+    sh = d / "clockshim"
+    sh.mkdir(parents=True, exist_ok=True)
+    (sh / "sitecustomize.py").write_text(CLOCK_SHIM)
+    return sh
+
+
 def variant_build(job):
     root, names, fmt, v = job
     root = Path(root)
     env = {}
+    if "clock" in v:
+        env["PYTHONPATH"] = str(clock_shim(root))
+        env["VERIF_CLOCK_OFFSET"] = str(v["clock"])
     if "hashseed" in v:
         env["PYTHONHASHSEED"] = str(v["hashseed"])
     if "jobs" in v:
@@ -101,6 +122,7 @@ def suite(ctx, res, formats):
             {"id": 6, "cwd": ".", "perm": 14, "hashseed": 5},   # other working directory: relative paths spelled differently
             {"id": 7, "relative": False, "build_in_cwd": True},  # absolute paths, build dir elsewhere; hash seed left random
             {"id": 8, "cwd": "zext", "hashseed": 7},
+            {"id": 9, "clock": 86400 * 400 + 7777, "hashseed": 0},   # same build more than a year later by the wall clock
         ]
         jobs = [(str(root), names, fmt, v) for fmt in formats for v in variants]
         with ThreadPoolExecutor(max_workers=8) as ex:
@@ -257,7 +279,7 @@ def run(ctx, res):
     res.rule = ("one generated 4-source set (two source directories, a ZWJ sequence) + 2 fixed sources sharing an outline across glyphs with different fill and opacity x formats {glyf_colr_1, picosvg, glyf} (+cbdt, glyf_colr_0, untouchedsvg in "
                 "thorough) x 9 variants: argv permutations, PYTHONHASHSEED in {0,1,2,3,4,5,7,12345,random}, ninja -j1/-j16, three working directories with relative "
                 "paths, absolute paths, build directory location; non-trivial = every variant other than the baseline")
-    formats = ["glyf_colr_1", "picosvg", "glyf"] + (["cbdt", "glyf_colr_0", "untouchedsvg"] if ctx.thorough else [])
+    formats = ["glyf_colr_1", "picosvg", "glyf", "picosvgz"] + (["cbdt", "glyf_colr_0", "untouchedsvg", "untouchedsvgz", "sbix", "cff_colr_1", "cff2_colr_0"] if ctx.thorough else [])
     suite_ninja_dag(ctx, res, ctx.budget(8, 120))
     suite_vf(ctx, res)
     suite(ctx, res, formats)
